@@ -22,7 +22,9 @@ THEOREMS = ["Yardl.C18.load_ok_sound", "Yardl.C18.every_reachable_package_loaded
             "Yardl.C18.two_cycle_rejected", "Yardl.C18.self_import_rejected",
             "Yardl.C18.cycle_through_second_import_rejected", "Yardl.C18.diamond_accepted",
             "Yardl.C18.conflict_rejected", "Yardl.C18.deep_chain_rejected", "Yardl.C18.order_dependence_at_limit",
-            "Yardl.C18.every_importer_references_all_its_imports", "Yardl.C18.namespaces_are_listed_imports_first"]
+            "Yardl.C18.every_importer_references_all_its_imports", "Yardl.C18.namespaces_are_listed_imports_first",
+            "Yardl.C18.names_resolve_into_imported_packages_only", "Yardl.C18.imported_types_are_usable", "Yardl.C18.child_references_are_imports",
+            "Yardl.C18.a_package_sees_exactly_what_it_imports", "Yardl.C18.transitively_imported_types_are_usable"]
 
 
 def spec(world, root, limit):
@@ -85,7 +87,7 @@ def place(d, layout):
     return f"d{d}"
 
 
-def write_world(root_dir, world, outputs_of=None, layout="flat"):
+def write_world(root_dir, world, outputs_of=None, layout="flat", extra_uses=()):
     for d, p in enumerate(world):
         pd = os.path.join(root_dir, place(d, layout))
         os.makedirs(pd, exist_ok=True)
@@ -103,6 +105,9 @@ def write_world(root_dir, world, outputs_of=None, layout="flat"):
             if i < len(world) and i != d and world[i]["ns"] != p["ns"] and i not in seen:
                 seen.add(i)
                 lines.append(f"Use{d}x{i}: Ns{world[i]['ns']}.T{i}")   # imported types usable under their namespace
+        for (a, b) in extra_uses:
+            if a == d:
+                lines.append(f"See{a}x{b}: Ns{world[b]['ns']}.T{b}")    # a package named without (necessarily) being imported by this one
         open(os.path.join(pd, "model.yml"), "w").write("\n".join(lines) + "\n")
 
 
@@ -218,6 +223,35 @@ def run(report, tier, seed):
         for w in (acc[:10] if quick else acc[:150]):
             k += 1
             _usable(report, sc, ybin, w, 0, k, seed, lean=lean)
+        # visibility: a package refers to the types of another loaded package - accepted exactly when it imports that package, directly or
+        # through its imports (Resolve.visible); every ordered pair of the small worlds, a sample of the random ones
+        vis_worlds = [(w, 0) for w in _usable_worlds(limit)] + [([{"ns": 0, "imports": [1, 2]}, {"ns": 1, "imports": []}, {"ns": 2, "imports": []}], 0),
+                                                                ([{"ns": 0, "imports": [2, 1]}, {"ns": 1, "imports": []}, {"ns": 2, "imports": [3]}, {"ns": 3, "imports": []}], 0)]
+        vis_worlds += [(w, 0) for w in (acc[:4] if quick else acc[:60])]
+        for wi, (w, root) in enumerate(vis_worlds):
+            if len({p["ns"] for p in w}) != len(w):
+                continue
+            reach = sorted(_reach(w, root))
+            graph = [[w[x]["ns"], [w[i]["ns"] for i in w[x]["imports"]]] for x in reach]
+            m = lean.ask({"op": "namespaces", "graph": graph, "root": w[root]["ns"]})
+            visible = {e[0]: set(e[1]) for e in m["visible"]}
+            pairs = [(a, b) for a in reach for b in reach if a != b]
+            if len(pairs) > (8 if quick else 30):
+                pairs = rng.sample(pairs, 8 if quick else 30)
+            for (a, b) in pairs:
+                d = sc.path(f"vis{wi}_{a}_{b}")
+                write_world(d, w, layout=("flat", "groups")[wi % 2], extra_uses=[(a, b)])
+                verdict, text = cli_verdict(ybin, d, root, layout=("flat", "groups")[wi % 2])
+                want = "ok" if w[b]["ns"] in visible.get(w[a]["ns"], set()) else "rejected"
+                got = "ok" if verdict == "ok" else "rejected"
+                report.case(distinct_key=("visible", json.dumps(w), a, b))
+                report.count("visibility." + want)
+                if got != want:
+                    report.violation(f"visibility:{'uses-a-package-it-does-not-import' if got == 'ok' else 'imported-package-not-visible'}",
+                                     {"world": w, "root": root, "user": a, "used": b, "model_visible_from_user": sorted(visible.get(w[a]["ns"], [])), "tool": verdict,
+                                      "output": text[-800:], "seed": seed, "theorem_or_correspondence": "Resolve.visible vs yardl validate"},
+                                     "a package can refer to exactly the packages it imports, directly or through its imports")
+                shutil.rmtree(d, ignore_errors=True)
         lean.close()
 
 
